@@ -420,11 +420,12 @@ func (m *Model) checkC10(i int, v view) []common.Violation {
 			}
 			continue
 		}
-		if x.Transaction.IssuerAddress == x.SignerPublicAddress {
+		if x.Transaction.IssuerAddress == x.SignerPublicAddress ||
+			(world.KeyOf(x.Transaction.IssuerAddress) != "" && world.KeyOf(x.Transaction.IssuerAddress) == world.KeyOf(x.SignerPublicAddress)) {
 			m.counters["C10.self-sealed"]++
 			out = append(out, viol("C10", "C10.silver", "C10.self-sealed-vertex", fmt.Sprintf("node %d holds %s whose transaction was issued by its own sealing wallet %s", i, R.Name(h), world.AddrName(x.SignerPublicAddress)), nil))
 		}
-		if v.S.Genesis != "" && x.Transaction.IssuerAddress == v.S.Genesis {
+		if v.S.Genesis != "" && (x.Transaction.IssuerAddress == v.S.Genesis || world.KeyOf(x.Transaction.IssuerAddress) == world.KeyOf(v.S.Genesis)) {
 			out = append(out, viol("C10", "C10.golden", "C10.genesis-wallet-spends", fmt.Sprintf("node %d holds %s issued by the genesis wallet", i, R.Name(h)), nil))
 		}
 		if x.Transaction.IsEmpty() {
